@@ -115,6 +115,7 @@ class Ctx:
         self.busy = set()
         self.tmp = 0
         self.globals = {}
+        self.fn_class = Fn
         self.inout = {}
         self.fetch = lambda name: []
 
@@ -211,7 +212,7 @@ class Ctx:
             raise Untranslatable("no definition of " + key)
         self.busy.add(key)
         try:
-            f = Fn(self, key)
+            f = self.fn_class(self, key)
             text = f.translate()
             self.done[key] = f.info
             self.code[key] = text
@@ -242,6 +243,10 @@ class Fn:
         self.needs_fuel = False
         self.nloops = 0
         self.cont_cb = None
+        self.fields = FIELDS
+        self.state_ty = "Sock"
+        self.env_sig = "(env : Env) (app : App) "
+        self.oracles = []
 
     # ------------------------------------------------------------------ result shapes
     def result(self, val, env=None):
@@ -286,11 +291,11 @@ class Fn:
         elif self.const:
             rty = LEAN_TY.get(self.ret)
         elif self.outbuf:
-            rty = "Sock × Bytes × %s" % LEAN_TY.get(self.ret, "?")
+            rty = "%s × Bytes × %s" % (self.state_ty, LEAN_TY.get(self.ret, "?"))
         elif self.ret == "void":
-            rty = "Sock"
+            rty = self.state_ty
         else:
-            rty = "Sock × %s" % LEAN_TY.get(self.ret, "?")
+            rty = "%s × %s" % (self.state_ty, LEAN_TY.get(self.ret, "?"))
         if rty is None or "?" in rty:
             raise Untranslatable("return type " + self.ret)
         self.info = {"name": name, "params": self.params, "ret": self.ret, "const": self.const, "env": self.uses_env, "outbuf": bool(self.outbuf)}
@@ -301,7 +306,9 @@ class Fn:
             args.insert(0, "(fuel : Nat)")
         if self.free and self.uses_env:
             raise Untranslatable("file-scope function that needs the environment")
-        head = "def %s %s%s%s: %s :=" % (name, "(env : Env) (app : App) " if self.uses_env else "", "" if self.free else "(s : Sock) ",
+        args += ["(%s : Bytes)" % o for o in self.oracles]
+        self.info["oracles"] = list(self.oracles)
+        head = "def %s %s%s%s: %s :=" % (name, self.env_sig if self.uses_env else "", "" if self.free else "(s : %s) " % self.state_ty,
                                          " ".join(args) + (" " if args else ""), rty)
         return "/-- `%s` -/\n%s\n%s\n" % (self.key, head, ind(body, 2))
 
@@ -429,8 +436,8 @@ class Fn:
             raise Untranslatable("reference to " + str(rd.get("name")))
         if k == "MemberExpr":
             m = self.member(n)
-            if m in FIELDS:
-                return [], "s." + FIELDS[m][0], FIELDS[m][1]
+            if m in self.fields:
+                return [], "s." + self.fields[m][0], self.fields[m][1]
             raise Untranslatable("member " + str(n.get("name")))
         if k == "UnaryOperator":
             op = n["opcode"]
@@ -854,9 +861,9 @@ class Fn:
         """lines that store `code` into the member/local lhs; returns (lines, env)"""
         m = self.member(lhs)
         if m is not None:
-            if m not in FIELDS:
+            if m not in self.fields:
                 raise Untranslatable("assignment to member " + m)
-            f, ft = FIELDS[m]
+            f, ft = self.fields[m]
             if ft != ty and not (ft == "bytes" and ty == "obytes"):
                 raise Untranslatable("assignment of %s to %s" % (ty, m))
             return ["let s := { s with %s := %s }" % (f, code)], env
@@ -898,7 +905,7 @@ class Fn:
                 if t not in ("int", "bool", "bytes", "blist", "hmap"):
                     raise Untranslatable("local %s of type %s" % (nm, qt(v)))
                 if not init or (strip(init[0]).get("kind") in ("CXXConstructExpr", "CXXTemporaryObjectExpr") and not [c for c in kids(strip(init[0])) if c.get("kind") != "CXXDefaultArgExpr"]):
-                    if t == "int" and not init and self.free:
+                    if t == "int" and not init and (self.free or self.state_ty != "Sock"):
                         lines.append("let %s : Int := 0" % nm)       # written before it is read (checked by the C++ compiler's flow only)
                     elif t not in ("bytes", "blist", "hmap"):
                         raise Untranslatable("local without initialiser: " + nm)
@@ -1413,6 +1420,147 @@ def translate_socket(repo, exp):
     return "\n".join(out), done, failed
 
 
+# --------------------------------------------------------------------------------------------------- proxysocket.cpp
+
+PROXY_FIELDS = {"mHeadersParsed": ("headersParsed", "bool"), "mHeadersWritten": ("headersWritten", "bool"),
+                "mUpstreamRead": ("upRead", "bytes"), "mUpstreamWrite": ("buf", "bytes")}
+PROXY_WANTED = ["ProxySocket::onDownstreamReadyRead", "ProxySocket::onUpstreamReadyRead", "ProxySocket::onUpstreamError"]
+
+
+class ProxyFn(Fn):
+    """slots of ProxySocket over the model's `Proxy.St`: the downstream HTTP socket is driven through the socket model's
+    API (`Px.ds…`), writes to the upstream socket are appended to `toUp`, what the two sockets hand out when read is an
+    oracle parameter of the slot (`upChunk`, `dsChunk`)"""
+    def __init__(self, ctx, key):
+        Fn.__init__(self, ctx, key)
+        self.fields = PROXY_FIELDS
+        self.state_ty = "Proxy.St"
+        self.env_sig = "(env : Env) "
+        # the error code parameter of onUpstreamError is not used by the slot
+        self.params = [p for p in self.params if not p[2].startswith("?")]
+
+    def member(self, n):
+        n = strip(n)
+        if n.get("kind") == "MemberExpr" and kids(n) and strip(kids(n)[0]).get("kind") == "CXXThisExpr":
+            return n["name"]
+        return None
+
+    def obj_path(self, n):
+        m = self.member(n)
+        if m == "mUpstreamSocket":
+            return "up"
+        if m == "mDownstreamSocket":
+            return "ds"
+        if m is not None:
+            return ("field", m)
+        n0 = strip(n)
+        if n0.get("kind") == "CXXThisExpr":
+            return "this"
+        if n0.get("kind") == "DeclRefExpr" and n0.get("referencedDecl", {}).get("kind") in ("VarDecl", "ParmVarDecl"):
+            return ("local", n0["referencedDecl"]["name"])
+        return None
+
+    def effectful(self, n):
+        n0 = strip(n)
+        if n0.get("kind") == "CXXMemberCallExpr":
+            callee = strip(kids(n0)[0])
+            if callee.get("kind") == "MemberExpr" and kids(callee) and self.obj_path(kids(callee)[0]) in ("up", "ds"):
+                return True
+        if n0.get("kind") == "CallExpr" and strip(kids(n0)[0]).get("referencedDecl", {}).get("name") == "parseResponseHeaders":
+            return True
+        return any(self.effectful(c) for c in kids(n0))
+
+    def oracle(self, name):
+        if name not in self.oracles:
+            self.oracles.append(name)
+        return name
+
+    def call_member(self, n, env, want_value):
+        ks = kids(n)
+        callee = strip(ks[0])
+        if callee.get("kind") == "MemberExpr" and kids(callee):
+            obj = self.obj_path(kids(callee)[0])
+            nm = callee["name"]
+            real = [x for x in ks[1:] if x.get("kind") != "CXXDefaultArgExpr"]
+            if obj == "up":
+                if nm == "readAll" and not real:
+                    return [], self.oracle("upChunk"), "bytes"
+                if nm == "write" and len(real) == 1:
+                    pre, a = self.args(real, env)
+                    if a[0][1] == "bytes":
+                        return pre + ["let s := Px.upWrite s %s" % a[0][0]], "()", "void"
+                raise Untranslatable("mUpstreamSocket." + nm)
+            if obj == "ds":
+                self.uses_env = True
+                pre, a = self.args(real, env)
+                tys = [t for _, t in a]
+                if nm == "readAll" and not a:
+                    return [], self.oracle("dsChunk"), "bytes"
+                if nm == "writeError" and tys == ["int"]:
+                    return pre + ["let s := Px.dsWriteError env s %s" % a[0][0]], "()", "void"
+                if nm == "setStatusCode" and tys == ["int", "bytes"]:
+                    return pre + ["let s := Px.dsSetStatusCode env s %s %s" % (a[0][0], a[1][0])], "()", "void"
+                if nm == "setHeaders" and tys == ["hmap"]:
+                    return pre + ["let s := Px.dsSetHeaders s %s" % a[0][0]], "()", "void"
+                if nm == "writeHeaders" and not a:
+                    return pre + ["let s := Px.dsWriteHeaders env s"], "()", "void"
+                if nm == "write" and tys == ["bytes"]:
+                    return pre + ["let s := Px.dsWrite env s %s" % a[0][0]], "()", "void"
+                if nm == "close" and not a:
+                    return pre + ["let s := Px.dsClose env s"], "()", "void"
+                raise Untranslatable("mDownstreamSocket->%s(%s)" % (nm, ", ".join(tys)))
+        return Fn.call_member(self, n, env, want_value)
+
+    def call_free(self, n, env, want_value):
+        ks = kids(n)
+        fn = strip(ks[0])
+        nm = fn.get("referencedDecl", {}).get("name")
+        real = [x for x in ks[1:] if x.get("kind") != "CXXDefaultArgExpr"]
+        if nm == "parseResponseHeaders" and len(real) == 4:
+            pre, a = self.args(real[:1], env)
+            outs = []
+            for an, ty in zip(real[1:], ("int", "bytes", "hmap")):
+                a0 = strip(an)
+                vn = a0.get("referencedDecl", {}).get("name")
+                if a0.get("kind") != "DeclRefExpr" or vn not in env or env[vn][1] != ty:
+                    raise Untranslatable("parseResponseHeaders with an out-parameter that is not a local of the right type")
+                outs.append(env[vn][0])
+            t = self.ctx.fresh()
+            return pre + ["let (%s, %s) := Px.parseResponseHeaders %s %s" % (t, ", ".join(outs), a[0][0], " ".join(outs))], t, "bool"
+        return Fn.call_free(self, n, env, want_value)
+
+
+def translate_proxy(repo, exp):
+    docs = clang_ast(repo, "proxysocket.cpp", "ProxySocket::", exp)
+    decls = {}
+    for d in docs:
+        if d.get("kind") == "CXXMethodDecl" and body_of(d) is not None:
+            decls["ProxySocket::" + d["name"]] = d
+    sdocs = clang_ast(repo, "proxysocket.cpp", "QHttpEngine::Socket", exp)
+    senums = enum_values(sdocs, "Socket")
+    ctx = Ctx(decls, senums, "")
+    ctx.fetch = lambda name: clang_ast(repo, "proxysocket.cpp", name, exp)
+    ctx.fn_class = ProxyFn
+    done, failed = [], []
+    for key in PROXY_WANTED:
+        try:
+            ctx.need(key)
+        except Untranslatable as e:
+            failed.append("%s (%s)" % (key, e))
+    out = ["-- GENERATED on every run by tools/cxx2lean_qt.py from src/src/proxysocket.cpp — do not edit.",
+           "import Qhttp.Model.PxPrim", "set_option linter.unusedVariables false", "", "namespace QhttpGen.Proxy", "open Qhttp", ""]
+    for key in ctx.order:
+        out.append(ctx.code[key]); done.append(key)
+    helpers = [ctx.done[k]["name"] for k in ctx.order if k not in PROXY_WANTED]
+    out.append("end QhttpGen.Proxy\n")
+    if helpers:
+        out.append("macro \"unfold_proxy_helpers\" : tactic => `(tactic| try simp only [%s] at *)\n" % ", ".join("QhttpGen.Proxy." + h for h in helpers))
+    else:
+        out.append("macro \"unfold_proxy_helpers\" : tactic => `(tactic| skip)\n")
+    return "\n".join(out), done, failed
+
+
+
 PARSER_WANTED = ["Parser::split", "Parser::parseHeaderList", "Parser::parseHeaders", "Parser::parseRequestHeaders", "Parser::parseResponseHeaders"]
 
 # what a function that could not be translated is replaced by: the model's function in the translated signature
@@ -1525,6 +1673,11 @@ def translate_parser(repo, exp):
 
 if __name__ == "__main__":
     import sys
+    if len(sys.argv) > 2 and sys.argv[2] == "proxy":
+        text, done, failed = translate_proxy(sys.argv[1], "/repo/_build/src")
+        print(text)
+        print("-- done:", done, "\n-- failed:", failed, file=sys.stderr)
+        sys.exit(0)
     if len(sys.argv) > 2 and sys.argv[2] == "parser":
         text, done, failed, stubs = translate_parser(sys.argv[1], "/repo/_build/src")
         print(text)
